@@ -59,7 +59,7 @@ def initial_cases(tier, seed):
             continue
         for lam in lams:
             cases.append({"kind": "nldf", "mol": mol, "fam": fam, "level": level, "rho_mult": rm, "plan": plan, "lam": lam})
-    for mol, cls in itertools.product(["He", "HF"], ["SDMX", "SDMXG1", "SDMXFull", "SDMXG1-all"]):
+    for mol, cls in itertools.product(["He", "HF"], ["SDMX", "SDMX1", "SDMXG", "SDMXG1", "SDMXFull", "SDMX1-all", "SDMXG-all", "SDMXG1-all"]):
         for lam in lams:
             cases.append({"kind": "sdmx", "mol": mol, "cls": cls, "lam": lam})
     for fam in ("SL", "VJ", "VIJ", "VK", "SDMX1"):
